@@ -36,6 +36,8 @@ CONSTANTS
   Membership,     \* dynamicMembershipChange
   CompactMin,     \* logCompactionMinEntries
   SnapChunk,      \* logCompactionBatchSize (bytes per snapshot chunk)
+  Journal,        \* nodes keep a file journal (and can be crashed / restarted)
+  DumpFile,       \* nodes keep their snapshot in a dump file (else in memory)
   Raisers,        \* ids of regular commands whose replicated method raises when executed (on every replica)
   SpecialCids,    \* callback ids of submissions that are not regular commands (membership, version)
   InitConnected,  \* start from a fully connected mesh (saves depth in exhaustive runs)
@@ -76,6 +78,8 @@ EntriesFrom(s, i) == IF i < FirstIdx(s) THEN <<>>
 EntriesFromN(s, i, cnt) == IF i < FirstIdx(s) THEN <<>>
                            ELSE SubSeq(s.log, i - FirstIdx(s) + 1, Min(Len(s.log), i - FirstIdx(s) + cnt))
 
+DeleteTo(s, toIdx) == IF toIdx - FirstIdx(s) < 0 THEN s.log ELSE SubSeq(s.log, toIdx - FirstIdx(s) + 1, Len(s.log))
+
 (* strict majority of the voters this node knows: count > (len(others)+1)/2 *)
 IsMajority(s, cnt) == 2 * cnt > Cardinality(s.others) + 1
 
@@ -90,7 +94,7 @@ InitNode(n) ==
    noopIdx |-> -1, chgIdx |-> -1, hist |-> <<>>, ver |-> 0, ready |-> FALSE,
    force |-> FALSE, lse |-> -1, needLoad |-> TRUE, serPid |-> 0, serId |-> 0,
    snap |-> "none", trans |-> <<>>, incoming |-> [has |-> FALSE],
-   rocnt |-> 0, roid |-> <<>>]
+   rocnt |-> 0, roid |-> <<>>, metaCommit |-> 1]
 
 Init ==
   /\ node = [n \in Nodes |-> IF n \in Voters0 \cup Observers THEN InitNode(n) ELSE [alive |-> FALSE]]
@@ -268,13 +272,28 @@ BecomeLeader(x, n) ==
   IN SendAppendEntries(x2, n)
 
 -----------------------------------------------------------------------------
+(* __loadDumpFile(clearJournal) of the snapshot held; an unreadable blob leaves everything as it was.  At     *)
+(* start-up (clearJournal = FALSE) the journal is kept only if it begins with exactly the snapshot's two       *)
+(* entries.                                                                                                     *)
+LoadSnapshot(x, n, clearJournal) ==
+  LET s == x.s IN
+  IF ~HasSnap(s) THEN x
+  ELSE LET c == snaps[s.snap]
+           keep == ~clearJournal /\ Len(s.log) >= 2 /\ s.log[1] = c.prev /\ s.log[2] = c.last
+           \* the journal still starts before the snapshot (stopped between dump write and journal trim): trim it now
+           trim == ~clearJournal /\ ~keep /\ EntriesFromN(s, c.prev.idx, 2) = <<c.prev, c.last>>
+           s1 == [s EXCEPT !.hist = c.hist, !.ver = c.ver, !.applied = c.last.idx,
+                           !.log = IF keep THEN @ ELSE IF trim THEN DeleteTo(s, c.prev.idx) ELSE <<c.prev, c.last>>]
+       IN IF Membership THEN UpdateCluster(WithS(x, s1), n, c.cluster \ {n}) ELSE WithS(x, s1)
+
 (* _onTick, block by block *)
 
 ElectionStep(x, n) ==
   LET s == x.s IN
   IF s.role \in {"F", "C"} /\ s.elDue /\ (s.conn # {} \/ s.others = {})
   THEN LET s1 == [s EXCEPT !.elDue = FALSE, !.leader = Nil, !.role = "C", !.term = @ + 1,
-                           !.votedFor = n, !.votes = 1]
+                           !.votedFor = n, !.votes = 1,
+                           !.metaCommit = IF Journal THEN s.commit ELSE @]   \* .meta rewritten with term and vote
            rv == [t |-> "rv", term |-> s1.term, lli |-> LastIdx(s), llt |-> LastTerm(s)]
            x1 == SndAll(WithS(x, s1), n, s1.others, rv)
            x2 == OnLeaderChanged(x1)
@@ -397,7 +416,6 @@ QueueStep(x, n) ==
 (* __tryLogCompaction (serializer in memory, or to a file without fork: serialization completes inside the   *)
 (* call and is acknowledged by checkSerializing on the next tick).  orc = [sid, size]: identity and byte size *)
 (* of the blob a serialization in this step produces (an input: gzip/pickle are not modelled).               *)
-DeleteTo(s, toIdx) == IF toIdx - FirstIdx(s) < 0 THEN s.log ELSE SubSeq(s.log, toIdx - FirstIdx(s) + 1, Len(s.log))
 
 CompactStep(x, n, orc) ==
   LET s == x.s
@@ -414,13 +432,17 @@ CompactStep(x, n, orc) ==
                       s4 == [s3 EXCEPT !.serId = la[1].idx, !.snap = orc.sid, !.serPid = -1]
                   IN [WithS(x, s4) EXCEPT !.news = Append(@, [sid |-> orc.sid, content |-> content])]
 
-TickCtx(n, adv, cut, orc, ord) ==
+(* mt: the once-per-second timer of the journal fires in this tick and stores the commit index in .meta *)
+TickCtx(n, adv, cut, orc, ord, mt) ==
   LET s0 == node[n]
       sA == [s0 EXCEPT !.elDue = @ \/ adv = "j",
                        !.hbDue = s0.role = "L" /\ (@ \/ adv # "z"),
                        !.fresh = IF adv \in {"m", "j"} THEN {} ELSE @,
                        !.needLoad = FALSE]
-      x0 == [Ctx(sA) EXCEPT !.cut = cut, !.left = cut, !.ord = ord]
+      xL == [Ctx(sA) EXCEPT !.cut = cut, !.left = cut, !.ord = ord]
+      \* first tick of a process: load the dump file if there is one
+      xM == IF s0.needLoad /\ DumpFile THEN LoadSnapshot(xL, n, FALSE) ELSE xL
+      x0 == IF mt /\ Journal THEN WithS(xM, [xM.s EXCEPT !.metaCommit = xM.s.commit]) ELSE xM
       x1 == IF n \in Observers THEN x0 ELSE ElectionStep(x0, n)
       x2 == LeaderStep(x1, n)
       x3 == ApplyStep(x2, n)
@@ -442,14 +464,15 @@ OnRequestVote(x, n, from, m) ==
   LET s0 == x.s
       s1 == IF m.term > s0.term
             THEN [s0 EXCEPT !.term = m.term, !.votedFor = Nil, !.role = "F", !.leader = Nil,
-                            !.fresh = {}, !.hbDue = FALSE]
+                            !.fresh = {}, !.hbDue = FALSE, !.metaCommit = IF Journal THEN s0.commit ELSE @]
             ELSE s0
   IN IF /\ s1.role \in {"F", "C"}
         /\ m.term >= s1.term
         /\ ~(m.llt < LastTerm(s1))
         /\ ~(m.llt = LastTerm(s1) /\ m.lli < LastIdx(s1))
         /\ s1.votedFor = Nil
-     THEN Snd(WithS(x, [s1 EXCEPT !.votedFor = from, !.elDue = FALSE]), n, from, [t |-> "vote", term |-> m.term])
+     THEN Snd(WithS(x, [s1 EXCEPT !.votedFor = from, !.elDue = FALSE, !.metaCommit = IF Journal THEN s1.commit ELSE @]),
+              n, from, [t |-> "vote", term |-> m.term])
      ELSE WithS(x, s1)
 
 OnAppendEntries(x, n, from, m) ==
@@ -460,6 +483,7 @@ OnAppendEntries(x, n, from, m) ==
         sa == xa.s
         s1 == [sa EXCEPT !.elDue = FALSE, !.leader = from, !.term = m.term,
                          !.votedFor = IF m.term > s0.term THEN Nil ELSE @,
+                         !.metaCommit = IF Journal /\ m.term > s0.term THEN s0.commit ELSE @,
                          !.role = "F", !.lci = m.commit, !.fresh = {}, !.hbDue = FALSE]
         prevs == IF m.prevIdx = -1 THEN <<>> ELSE EntriesFrom(s1, m.prevIdx)
     IN IF prevs = <<>>
@@ -494,14 +518,6 @@ WellFormed(chunks) ==
   /\ \A k \in 1..(Len(chunks) - 1) : chunks[k + 1].off = chunks[k].off + chunks[k].len
   /\ Last(chunks).off + Last(chunks).len = snaps[chunks[1].sid].size
 
-(* __loadDumpFile(clearJournal = TRUE) of the snapshot held; an unreadable blob leaves everything as it was *)
-LoadSnapshot(x, n) ==
-  LET s == x.s IN
-  IF ~HasSnap(s) THEN x
-  ELSE LET c == snaps[s.snap]
-           s1 == [s EXCEPT !.hist = c.hist, !.ver = c.ver, !.log = <<c.prev, c.last>>, !.applied = c.last.idx]
-       IN IF Membership THEN UpdateCluster(WithS(x, s1), n, c.cluster \ {n}) ELSE WithS(x, s1)
-
 OnSnapshotChunk(x, n, from, m) ==
   LET s0 == x.s IN
   IF m.term < s0.term THEN x
@@ -510,6 +526,7 @@ OnSnapshotChunk(x, n, from, m) ==
         sa == xa.s
         s1 == [sa EXCEPT !.elDue = FALSE, !.leader = from, !.term = m.term,
                          !.votedFor = IF m.term > s0.term THEN Nil ELSE @,
+                         !.metaCommit = IF Journal /\ m.term > s0.term THEN s0.commit ELSE @,
                          !.role = "F", !.lci = m.commit, !.fresh = {}, !.hbDue = FALSE]
         chunk == [sid |-> m.sid, off |-> m.off, len |-> m.len]
         \* Serializer.setTransmissionData
@@ -520,7 +537,7 @@ OnSnapshotChunk(x, n, from, m) ==
               ELSE IF done THEN [s1 EXCEPT !.incoming = [has |-> FALSE],
                                            !.snap = IF WellFormed(buf) THEN buf[1].sid ELSE "garbage"]
               ELSE [s1 EXCEPT !.incoming = [has |-> TRUE, known |-> TRUE, chunks |-> buf]]
-        xl == IF done THEN LoadSnapshot(WithS(xa, s2), n) ELSE WithS(xa, s2)
+        xl == IF done THEN LoadSnapshot(WithS(xa, s2), n, TRUE) ELSE WithS(xa, s2)
         s3 == xl.s
         xb == IF done THEN Snd(xl, n, from, NNI(LastIdx(s3) + 1, FALSE, TRUE)) ELSE xl
         s4 == xb.s
@@ -616,9 +633,9 @@ Commit(n, x, ch, al) ==
 (* actions *)
 Advs == {"z", "h", "m", "j"}
 
-Tick(n, adv, cut, orc, ord) ==
+Tick(n, adv, cut, orc, ord, mt) ==
   /\ node[n].alive
-  /\ Commit(n, TickCtx(n, adv, cut, orc, ord), chan, alive)
+  /\ Commit(n, TickCtx(n, adv, cut, orc, ord, mt), chan, alive)
 
 (* forceLogCompaction() *)
 Compact(n) ==
@@ -689,6 +706,30 @@ Stop(n) ==
   /\ up' = {u \in up : u[1] # n}
   /\ chan' = [i \in Nodes |-> [j \in Nodes |-> IF i = n \/ j = n THEN <<>> ELSE chan[i][j]]]
   /\ UNCHANGED <<cbs, nexc, snaps>>
+
+(* what a restart finds on disk after the process was killed between two steps: the file journal mirrors the *)
+(* in-memory log, .meta holds the commit index last stored by the timer, the dump file the snapshot held     *)
+DiskOf(s) == [jlog |-> s.log, torn |-> FALSE, meta |-> s.metaCommit, dump |-> IF DumpFile THEN s.snap ELSE "none",
+              term |-> s.term, votedFor |-> s.votedFor]     \* term and vote are stored in .meta when they change
+
+Crash(n) ==
+  /\ Journal /\ node[n].alive
+  /\ node' = [node EXCEPT ![n] = [alive |-> FALSE, disk |-> DiskOf(node[n])]]
+  /\ alive' = {p \in alive : n \notin p}
+  /\ up' = {u \in up : u[1] # n}
+  /\ chan' = [i \in Nodes |-> [j \in Nodes |-> IF i = n \/ j = n THEN <<>> ELSE chan[i][j]]]
+  /\ UNCHANGED <<cbs, nexc, snaps>>
+
+(* SyncObj.__init__ on the files a dead process left behind *)
+RestartNode(n, d) ==
+  [InitNode(n) EXCEPT !.log = IF d.jlog = <<>> THEN <<Entry(1, 0, NoopCmd, 1)>> ELSE d.jlog,
+                      !.commit = d.meta, !.metaCommit = d.meta, !.snap = d.dump, !.conn = {},
+                      !.term = d.term, !.votedFor = d.votedFor]
+
+Restart(n) ==
+  /\ Journal /\ ~node[n].alive /\ "disk" \in DOMAIN node[n]
+  /\ node' = [node EXCEPT ![n] = RestartNode(n, node[n].disk)]
+  /\ UNCHANGED <<chan, alive, up, cbs, nexc, snaps>>
 
 SubmitOpOld(n, c, z, wantCb) ==
   /\ node[n].alive
